@@ -64,7 +64,8 @@ impl NodeProcessor for RemoveFloorDivisionProcessor {
             Statement::CompoundAssign(assign_statement)
                 if assign_statement.get_operator() == CompoundOperator::DoubleSlash =>
             {
-                RemoveCompoundAssignment::default().replace_compound_assignment(statement);
+                RemoveCompoundAssignment::default()
+                    .replace_compound_assignment(statement, &mut self.identifier_tracker);
             }
             _ => {}
         }
